@@ -131,12 +131,17 @@ Proof.
     + left. rewrite N.min_l by lia. lia.
 Qed.
 
+Lemma pow_fuel64 : 2 ^ N.of_nat 64 = 18446744073709551616.
+Proof. vm_compute. reflexivity. Qed.
+
 Lemma skipn_length_le {A} k (l : list A) : (length (skipn k l) <= length l)%nat.
 Proof. rewrite skipn_length. lia. Qed.
 
 Lemma prog_dec_bytes bs : prog (dec_bytes c bs) bs 1.
 Proof.
-  unfold dec_bytes. apply (prog_bind _ _ _ 1%nat 0%nat); [apply prog_dec_uint|].
+  unfold dec_bytes. remember 64%nat as fuel eqn:EF.
+  assert (PF : 2 ^ N.of_nat fuel = 18446744073709551616) by (rewrite EF; apply pow_fuel64). clear EF.
+  apply (prog_bind _ _ _ 1%nat 0%nat); [apply prog_dec_uint|].
   intros len r L. cbv beta iota.
   destruct (N.ltb_spec 4294967295 len) as [BIG|SMALL]; [apply prog_fail|].
   destruct (fix_bytes c).
@@ -147,7 +152,7 @@ Proof.
       [|destruct (read_chunks f a b d m) as [[[]| | |] m1]] end.
     { apply read_chunks_safe; [lia|]. unfold max_prealloc.
       destruct (N.le_gt_cases len 4096); [left; lia|right]. rewrite N.min_r by lia. split; [lia|].
-      change (2 ^ N.of_nat 64) with 18446744073709551616. lia. }
+      rewrite PF. clear E. lia. }
     + cbv beta in E. unfold ret in E. injection E as <- <-. split; [apply safe_ok|].
       intros a r' Eo. injection Eo as <- <-. pose proof (skipn_length_le (N.to_nat len) r). lia.
     + injection E as <- <-. split; [apply safe_err|discriminate].
@@ -183,4 +188,109 @@ Proof.
   apply (prog_bind _ _ _ 0%nat 0%nat); [apply IH; lia|].
   intros vs r' L'. cbv beta iota. apply prog_ret. lia.
 Qed.
+Lemma prog_map_loop (deck decv : list byte -> M (value * list byte)) :
+  (forall bs, prog (deck bs) bs 1) -> (forall bs, prog (decv bs) bs 0) ->
+  forall fuel cnt lo bs, (length bs < fuel)%nat -> prog (dec_map_loop c deck decv fuel cnt lo bs) bs 0.
+Proof.
+  intros Hk Hv. induction fuel as [|f IH]; intros cnt lo bs F; [lia|]. cbn [dec_map_loop].
+  destruct (cnt =? 0); [apply prog_ret; lia|].
+  apply (prog_weaken _ _ (1 + 0)%nat); [lia|]. apply prog_bind; [apply Hk|].
+  intros k r1 L1. cbv beta iota.
+  apply (prog_bind _ _ _ 0%nat 0%nat); [apply Hv|].
+  intros v r2 L2. cbv beta iota. rewrite Hmap. cbn [negb].
+  apply prog_if; [apply prog_fail|].
+  apply (prog_bind _ _ _ 0%nat 0%nat); [apply IH; lia|].
+  intros kvs r' L'. cbv beta iota. apply prog_ret. lia.
+Qed.
+
+(* ---- the decoder *)
+Definition tot_ty (t : ty) : Prop := wf_ty t = true -> forall bs, prog (decode c t bs) bs (min_size t).
+Definition tot_tys (fs : tys) : Prop :=
+  wf_tys fs = true ->
+  (forall bs, prog (decode_fields c fs bs) bs (min_sizes fs)) /\
+  (forall i bs, prog (decode_alt c fs i bs) bs 0).
+
+Ltac leaf := intros _ bs; cbn [decode min_size]; apply prog_tick.
+
+Lemma tot_all : forall t, tot_ty t.
+Proof.
+  apply (ty_mut tot_ty tot_tys); unfold tot_ty, tot_tys.
+  - leaf. apply (prog_bind _ _ _ 1%nat 0%nat); [apply prog_read_byte|]. intros b r L. apply prog_ret. lia.
+  - leaf. apply (prog_bind _ _ _ 2%nat 0%nat); [apply prog_read|]. intros b r L. apply prog_ret. lia.
+  - leaf. apply (prog_bind _ _ _ 4%nat 0%nat); [apply prog_read|]. intros b r L. apply prog_ret. lia.
+  - leaf. apply (prog_bind _ _ _ 8%nat 0%nat); [apply prog_read|]. intros b r L. apply prog_ret. lia.
+  - leaf. apply (prog_bind _ _ _ 1%nat 0%nat); [apply prog_read_byte|]. intros b r L. apply prog_ret. lia.
+  - leaf. apply (prog_bind _ _ _ 2%nat 0%nat); [apply prog_read|]. intros b r L. apply prog_ret. lia.
+  - leaf. apply (prog_bind _ _ _ 4%nat 0%nat); [apply prog_read|]. intros b r L. apply prog_ret. lia.
+  - leaf. apply (prog_bind _ _ _ 8%nat 0%nat); [apply prog_read|]. intros b r L. apply prog_ret. lia.
+  - leaf. apply (prog_bind _ _ _ 1%nat 0%nat); [apply prog_dec_uint|]. intros b r L. apply prog_ret. lia.
+  - leaf. apply (prog_bind _ _ _ 1%nat 0%nat); [apply prog_dec_uint|]. intros b r L. apply prog_ret. lia.
+  - leaf. apply (prog_bind _ _ _ 1%nat 0%nat); [apply prog_dec_big|]. intros b r L. apply prog_ret. lia.
+  - leaf. apply prog_tick. apply (prog_bind _ _ _ 16%nat 0%nat); [apply prog_exact|]. intros b r L. apply prog_ret. lia.
+  - leaf. apply (prog_bind _ _ _ 1%nat 0%nat); [apply prog_read_byte|]. intros b r L. cbv beta iota.
+    destruct (bool_of_byte b); [apply prog_ret; lia|apply prog_fail].
+  - leaf. apply (prog_bind _ _ _ 1%nat 0%nat); [apply prog_dec_bytes|]. intros b r L. apply prog_ret. lia.
+  - leaf. apply (prog_bind _ _ _ 1%nat 0%nat); [apply prog_dec_bytes|]. intros b r L. apply prog_ret. lia.
+  - (* TOption *) intros t IH W bs. cbn [decode min_size wf_ty] in *. apply prog_tick.
+    apply (prog_bind _ _ _ 1%nat 0%nat); [apply prog_read_byte|]. intros b r L. cbv beta iota.
+    destruct (bool_of_byte b) as [[|]|]; [|apply prog_ret; lia|apply prog_fail].
+    apply (prog_bind _ _ _ 0%nat 0%nat); [eapply prog_weaken; [|apply (IH W)]; lia|].
+    intros v r' L'. apply prog_ret. lia.
+  - (* TResult *) intros a IHa b IHb W bs. cbn [decode min_size wf_ty] in *. apply andb_prop in W as [W1 W2].
+    apply prog_tick.
+    apply (prog_bind _ _ _ 1%nat 0%nat); [apply prog_read_byte|]. intros x r L. cbv beta iota.
+    destruct (bool_of_byte x) as [[|]|]; [| |apply prog_fail].
+    + apply (prog_bind _ _ _ 0%nat 0%nat); [eapply prog_weaken; [|apply (IHb W2)]; lia|].
+      intros v r' L'. apply prog_ret. lia.
+    + apply (prog_bind _ _ _ 0%nat 0%nat); [eapply prog_weaken; [|apply (IHa W1)]; lia|].
+      intros v r' L'. apply prog_ret. lia.
+  - (* TEnum *) intros alts IH W bs. cbn [decode min_size wf_ty] in *. apply andb_prop in W as [W1 W2].
+    apply prog_tick.
+    apply (prog_bind _ _ _ 1%nat 0%nat); [apply prog_read_byte|]. intros x r L. cbv beta iota.
+    apply (proj2 (IH W2)).
+  - (* TArray *) intros n t IH W bs. cbn [decode min_size wf_ty] in *. apply prog_tick.
+    replace (n * min_size t)%nat with (n * min_size t + 0)%nat by lia.
+    apply prog_bind; [apply prog_array; apply (IH W)|]. intros vs r L. apply prog_ret. lia.
+  - (* TSlice *) intros t IH W bs. cbn [decode min_size wf_ty] in *. apply andb_prop in W as [W1 W2].
+    apply Nat.leb_le in W2. apply prog_tick.
+    apply (prog_bind _ _ _ 1%nat 0%nat); [apply prog_dec_uint|]. intros cnt r L. cbv beta iota.
+    apply (prog_bind _ _ _ 0%nat 0%nat).
+    + apply prog_loop; [|lia]. intro bs'. eapply prog_weaken; [|apply (IH W1)]. exact W2.
+    + intros vs r' L'. apply prog_ret. lia.
+  - (* TMap *) intros kt IHk vt IHv W bs. cbn [decode min_size wf_ty] in *. apply andb_prop in W as [W1 W2].
+    assert (Wk : wf_ty kt = true) by (destruct kt; try discriminate W1; reflexivity).
+    assert (Mk : (1 <= min_size kt)%nat) by (destruct kt; try discriminate W1; cbn; lia).
+    apply prog_tick.
+    apply (prog_bind _ _ _ 1%nat 0%nat); [apply prog_dec_uint|]. intros cnt r L. cbv beta iota.
+    apply (prog_bind _ _ _ 0%nat 0%nat).
+    + apply prog_map_loop; [| |lia].
+      * intro bs'. eapply prog_weaken; [|apply (IHk Wk)]. exact Mk.
+      * intro bs'. eapply prog_weaken; [|apply (IHv W2)]. lia.
+    + intros raw r' L'. apply prog_ret. lia.
+  - (* TStruct *) intros fs IH W bs. cbn [decode min_size wf_ty] in *. apply prog_tick.
+    replace (min_sizes fs) with (min_sizes fs + 0)%nat by lia.
+    apply prog_bind; [apply (proj1 (IH W))|]. intros vs r L. apply prog_ret. lia.
+  - (* TNil *) intros _. split; intros; cbn [decode_fields decode_alt min_sizes]; [apply prog_ret; lia|apply prog_fail].
+  - (* TCons *) intros tag t IHt fr IHf W. cbn [wf_tys] in W. apply andb_prop in W as [W1 W2]. split.
+    + intro bs. cbn [decode_fields min_sizes].
+      apply prog_bind; [apply (IHt W1)|]. intros v r L. cbv beta iota.
+      replace (min_sizes fr) with (min_sizes fr + 0)%nat by lia.
+      apply prog_bind; [apply (proj1 (IHf W2))|]. intros vs r' L'. apply prog_ret. lia.
+    + intros i bs. cbn [decode_alt]. destruct tag as [j|]; [|apply (proj2 (IHf W2))].
+      destruct (j =? i); [|apply (proj2 (IHf W2))].
+      apply (prog_bind _ _ _ 0%nat 0%nat); [eapply prog_weaken; [|apply (IHt W1)]; lia|].
+      intros v r L. apply prog_ret. lia.
+Qed.
+
+Theorem decode_total t bs m :
+  wf_ty t = true ->
+  fst (decode c t bs m) <> Panic /\ fst (decode c t bs m) <> OutOfFuel.
+Proof.
+  intro W. destruct (decode c t bs m) as [o m'] eqn:E. exact (proj1 (tot_all t W bs m o m' E)).
+Qed.
+
+Theorem decode_consumes t bs m v r m' :
+  wf_ty t = true -> decode c t bs m = (Ok (v, r), m') -> (length r + min_size t <= length bs)%nat.
+Proof. intros W E. exact (proj2 (tot_all t W bs m _ m' E) v r eq_refl). Qed.
+
 End Total.
